@@ -97,6 +97,16 @@ func c03Vars(d string) map[string]string {
 
 var c03Debug = os.Getenv("C03_DEBUG") != ""
 
+// c03OOG: a Dump() too expensive for the query gas limit says nothing about
+// persistence; such cases are discarded and counted.
+func c03OOG(ctx *vk.Ctx, err error) bool {
+	if err != nil && strings.Contains(err.Error(), "out of gas") {
+		ctx.Class("discard:out-of-gas")
+		return true
+	}
+	return false
+}
+
 func c03Exec(ctx *vk.Ctx, c c03Case) error {
 	if c03Debug {
 		t0 := time.Now()
@@ -125,6 +135,9 @@ func c03Exec(ctx *vk.Ctx, c c03Case) error {
 		return nil
 	}
 	prev, err := p.QStr(c03Pkg, "Dump()")
+	if c03OOG(ctx, err) {
+		return nil
+	}
 	if err != nil {
 		return fmt.Errorf("P: Dump() after deploy failed: %v", err)
 	}
@@ -157,6 +170,9 @@ func c03Exec(ctx *vk.Ctx, c c03Case) error {
 		}
 		pRes = append(pRes, s)
 		d, err := p.QStr(c03Pkg, "Dump()")
+		if c03OOG(ctx, err) {
+			return nil
+		}
 		if err != nil {
 			return fmt.Errorf("P: Dump() after call %d failed: %v", i, err)
 		}
@@ -173,6 +189,9 @@ func c03Exec(ctx *vk.Ctx, c c03Case) error {
 		prevVars = vars
 	}
 	pFinal, err := p.QStr(c03Pkg, "Dump()")
+	if c03OOG(ctx, err) {
+		return nil
+	}
 	if err != nil {
 		return fmt.Errorf("P: final Dump() failed: %v", err)
 	}
@@ -183,6 +202,9 @@ func c03Exec(ctx *vk.Ctx, c c03Case) error {
 			return fmt.Errorf("P: final restart: %v", err)
 		}
 		again, err := p.QStr(c03Pkg, "Dump()")
+		if c03OOG(ctx, err) {
+			return nil
+		}
 		if err != nil || again != pFinal {
 			return fmt.Errorf("P: Dump() differs after a restart:\n before=%s\n after =%s (%v)", pFinal, again, err)
 		}
@@ -197,6 +219,12 @@ func c03Exec(ctx *vk.Ctx, c c03Case) error {
 		return fmt.Errorf("harness: %v", err)
 	}
 	if mr.Error != nil || pFailed != "" {
+		if strings.Contains(pFailed, "out of gas") || strings.Contains(rkErr(mr), "out of gas") {
+			// M pays for the whole sequence with one gas budget: running out of
+			// gas says nothing about persistence
+			ctx.Class("discard:out-of-gas")
+			return nil
+		}
 		if mr.Error != nil && pFailed != "" {
 			if c03Debug {
 				fmt.Printf("C03 both failed: P: %s\nM: %s\n%s\n", pFailed, rkErr(mr), src)
@@ -207,6 +235,9 @@ func c03Exec(ctx *vk.Ctx, c c03Case) error {
 		return fmt.Errorf("only one execution failed: separate txs: %q  in memory: %q", pFailed, rkErr(mr))
 	}
 	all, err := m.QStr(c03Pkg, "Result")
+	if c03OOG(ctx, err) {
+		return nil
+	}
 	if err != nil {
 		return fmt.Errorf("M: reading Result: %v", err)
 	}
@@ -235,6 +266,9 @@ func c03Exec(ctx *vk.Ctx, c c03Case) error {
 		return diverged(fmt.Errorf("final Dump() differs:\n separate txs: %s\n in memory   : %s", pFinal, parts[len(c.Calls)]))
 	}
 	mFinal, err := m.QStr(c03Pkg, "Dump()")
+	if c03OOG(ctx, err) {
+		return nil
+	}
 	if err != nil || mFinal != pFinal {
 		return diverged(fmt.Errorf("Dump() of the in-memory chain, read back after its only commit, differs:\n separate txs: %s\n in memory   : %s (%v)", pFinal, mFinal, err))
 	}
@@ -247,7 +281,7 @@ func c03Exec(ctx *vk.Ctx, c c03Case) error {
 	return nil
 }
 
-const c03Rule = "rapid: typed grammar of realm programs (1-3 declared structs with methods, 5-8 package variables of nesting depth <= 3 over int/string/bool/uint8, arrays, slices incl. sub-slices of one backing array and spare capacity, maps, pointers incl. pointers into arrays/struct fields/slice elements, closures capturing variables, pointers and slices, an interface holding declared pointer/value types), init() with alias-making statements, 3-8 crossing functions of 2-5 guarded statements over generated places, 3-15 calls with arguments; P = one MsgCall tx per call (objects reloaded every tx; application rebuilt from the DB at one drawn call boundary (thorough tier: and again before the final Dump()) in half of the cases, a quarter in the quick tier), M = the whole sequence in memory at the end of init() of the same package deployed on a second chain (nothing persisted before or between the calls); non-trivial = the program text has an alias-making construct and some call changed the rendering of a variable that the called function does not write through (a write through one alias, made after a persistence boundary, read through another)"
+const c03Rule = "rapid: typed grammar of realm programs (1-3 declared structs with methods, 10-15 package variables incl. two maps with composite keys (pointer, [2]*S0, struct holding a pointer, interface, [2]int, [2]struct; rendered by pointee contents with len and explicit lookups) and three *S0 key variables, the others of nesting depth <= 3 over int/string/bool/uint8, arrays, slices incl. sub-slices of one backing array and spare capacity, maps, pointers incl. pointers into arrays/struct fields/slice elements, closures capturing variables, pointers and slices, an interface holding declared pointer/value types), init() with alias-making statements, 3-8 crossing functions of 2-5 guarded statements over generated places, 3-15 calls with arguments; P = one MsgCall tx per call (objects reloaded every tx; application rebuilt from the DB at one drawn call boundary (thorough tier: and again before the final Dump()) in half of the cases, a quarter in the quick tier), M = the whole sequence in memory at the end of init() of the same package deployed on a second chain (nothing persisted before or between the calls); non-trivial = the program text has an alias-making construct and some call changed the rendering of a variable that the called function does not write through (a write through one alias, made after a persistence boundary, read through another)"
 
 func TestC03_Transparency(t *testing.T) {
 	vk.Run(t, vk.Spec[c03Case]{ID: "C03", Name: "TestC03_Transparency", Rule: c03Rule, Draw: c03Draw, Exec: c03Exec})
